@@ -16,6 +16,16 @@ from props.native_gen import TEXTS, DIFFS
 
 ENCS = [None, 'utf-8', 'utf-16', 'utf-32-be', 'utf-16-le']
 
+# distinct non-trivial generated cases of the current operation (hashes)
+DISTINCT = set()
+
+
+def note_case(*parts):
+    import hashlib
+    DISTINCT.add(hashlib.sha1(repr(parts).encode('utf-8', 'replace'))
+                 .hexdigest())
+
+
 
 def snap(section):
     """Deep, order-preserving snapshot of a tree (independent of __eq__)."""
@@ -100,6 +110,7 @@ def c19(seed, n):
         attr = rng.choice(all_attrs(t))
         v = rng.choice(ATTR_VALUES)
         before = (snap(d), snap(others[0]))
+        note_case('assign', type(t).__name__, attr, v)
         typ, choices = spec_of(attr)
         valid = isinstance(v, typ) and (choices is None or v in choices)
         evals += 1
@@ -180,6 +191,7 @@ def c18(seed, n):
             op = rng.randrange(7)
             t = trees[i]
             evals += 1
+            note_case('op', op, snap(t))
             try:
                 if op == 0:
                     t.meta['touched'] = rng.randrange(10 ** 6)
@@ -341,6 +353,8 @@ def c13(seed, n):
             truth_tot.append((len(c.files), ctot[0], ctot[1]))
         before = snap(d)
         evals += 1
+        if d.changes:
+            note_case('stats', before)
         try:
             d.generate_stats()
         except Exception as e:  # noqa
@@ -580,6 +594,8 @@ def c05(seed, n):
             return evals, {'error': 'building the tree raised %s: %s' % (
                 type(e).__name__, e), 'calls': repr(calls)[:1500]}
         evals += 1
+        if len(calls) > 1:
+            note_case('tree', sb)
         if rng.random() < .06:
             # an indentation no file can carry: the tree must either not
             # serialise, or serialise to something that parses
@@ -707,6 +723,7 @@ def c06(seed, n):
     for _ in range(n // 2):
         calls, b = random_file(rng)
         evals += 1
+        note_case('canonical', b)
         try:
             b2 = DiffX.from_bytes(b).to_bytes()
         except Exception as e:  # noqa
@@ -733,6 +750,7 @@ def c06(seed, n):
             return evals, {'error': 'from_bytes raised %s: %s' % (
                 type(e).__name__, e), 'data': repr(data)[:1500]}
         evals += 1
+        note_case('foreign', data)
         try:
             b2 = t.to_bytes()
         except Exception as e:  # noqa
@@ -760,12 +778,15 @@ def c06(seed, n):
 
 
 def main():
+    import logging
+    logging.disable(logging.CRITICAL)
     req = json.load(sys.stdin)
     fn = {'c19': c19, 'c18': c18, 'c13': c13, 'c05': c05,
           'c06': c06}[req['op']]
     r = fn(req['seed'], req['n'])
     e, w = r[0], r[1]
-    out = {'evaluations': e, 'witness': w}
+    out = {'evaluations': e, 'witness': w,
+           'distinct_nontrivial': len(DISTINCT)}
     if len(r) > 2:
         out['known_class_hits'] = len(r[2])
         out['known_class_sample'] = r[2][:2]
